@@ -76,6 +76,17 @@ pub fn enable_events(sim: &SimFs, cfg: (usize, u64, usize, bool)) {
                 smallest_snapshot
             ),
             Event::TrivialMove { level, file } => format!("M[{}][{}]", level, file),
+            Event::Rotated { new_wal } => format!("N[{}]", new_wal),
+            Event::ManifestRecord { wal, prev_wal, next_file, pointers } => {
+                let o = |x: &Option<u64>| x.map(|v| v.to_string()).unwrap_or("-".to_string());
+                format!(
+                    "L[{}][{}][{}][{}]",
+                    o(wal),
+                    o(prev_wal),
+                    o(next_file),
+                    pointers.iter().map(|(l, k)| format!("{}@{}", l, key_str(k))).collect::<Vec<_>>().join(";")
+                )
+            }
         };
         EVENTS.lock().unwrap().push(line);
     }));
@@ -131,7 +142,7 @@ pub fn err_class(e: &RainDBError) -> String {
 impl Session {
     pub fn open(sim: SimFs, cfg: (usize, u64, usize, bool)) -> Result<Session, String> {
         let opts = make_options(&sim, cfg);
-        mark_event(&format!("O[{}]", cfg.1));
+        mark_event(&format!("O[{}][{}]", cfg.1, cfg.3 as u8));
         let res = DB::open(opts);
         mark_event("R[]");
         match res {
@@ -427,7 +438,7 @@ impl Session {
                 if raindb::verif_hooks::events::is_installed() {
                     enable_events(&self.sim, cfg);
                 }
-                mark_event(&format!("O[{}]", cfg.1));
+                mark_event(&format!("O[{}][{}]", cfg.1, cfg.3 as u8));
                 let res = DB::open(opts);
                 mark_event("R[]");
                 match res {
